@@ -18,4 +18,12 @@ def build_registry() -> Registry:
             continue
         mod = importlib.import_module(f"{__name__}.{m.name}")
         mod.declare(reg)
+    from ._props import PROPS
+
+    for pid, info in PROPS.items():
+        d = reg.properties.setdefault(pid, {})
+        d["level"] = info.get("category", "proof")
+        d["assumptions"] = info.get("assumptions", [])
+        d["not_decided"] = info.get("not_decided", "")
+        d["explanation"] = info["text"]
     return reg
